@@ -309,6 +309,8 @@ def run_job(G, u, gen, bdir, job, tier):
             f.write('#define %s\n' % d)
         if job.get('enforce'):
             f.write('#define VF_ENFORCE_%s 1\n' % job['enforce'])
+        if job.get('loops'):
+            f.write('#define VF_LOOPS_APPLIED 1\n')
         f.write('#include "%s"\n' % gen)
         if harness is None:
             job = dict(job)
